@@ -211,7 +211,9 @@ def run(run):
     negctl_replay(run, b, cases)
     if not q:
         sim, n2 = run.gen(MC, "gen/Gen_C20_sim.cfg", workers=4, name="sim", timeout=900,
-                          extra_args=["-simulate", "num=60000", "-depth", "60", "-seed", str(run.seed)])
+                          # a complete behaviour has at most 34 states (6 calls x 5 steps + 3 loop exits + the initial state);
+                          # shorter ones stutter at AllDone and print their history again: duplicates are removed below
+                          extra_args=["-simulate", "num=25000", "-depth", "34", "-seed", str(run.seed)])
         n2 = canon_threads(sim)
         log(f"[gen] sim: {n2} distinct random behaviours of the 3x2x3 instance (up to renaming of threads)")
         replay_histories(run, b, sim, "sim")
